@@ -148,6 +148,84 @@ var ctorCases = []ctorCase{
 	}},
 }
 
+// TestSubMilli runs queue limiters on a clock of 100 microsecond units (virtual): backlog time-outs that do not fall on
+// whole milliseconds (4.4 ms), arrivals a millisecond apart, a release a few units before the next waiter's time-out. Who
+// is still waiting is decided by the waiter's own timer, to the unit (C11: only callers still waiting are considered,
+// and all of them).
+func TestSubMilli(t *testing.T) {
+	w := newNdWriter(t, filepath.Join(outDir(t), "submilli_trace.ndjson"))
+	defer w.close()
+	const unit = 100 * time.Microsecond
+	k := 0
+	for _, ord := range []string{"fifo", "lifo"} {
+		for _, ctor := range []string{"config", "deprecated"} {
+			for _, releaseAt := range []int{41, 43, 51, 53, 38} {
+				k++
+				kk := k
+				synctest.Test(t, func(t *testing.T) {
+					names := []string{"h", "w1", "w2", "w3"}
+					c := newController()
+					s := newScenario(t, c, names)
+					s.tick = unit
+					c.emit = s.ev
+					limiter.VerifPoint = nil
+					reg := newRecordingRegistry()
+					dl, busy, err := newDelegate(1, true)
+					if err != nil {
+						t.Fatal(err)
+					}
+					gl := &GatedLimiter{c: c, inner: dl}
+					o := limiter.OrderingFIFO
+					if ord == "lifo" {
+						o = limiter.OrderingLIFO
+					}
+					if ctor == "config" {
+						s.lim = limiter.NewQueueBlockingLimiterFromConfig(gl, limiter.QueueLimiterConfig{Ordering: o, MaxBacklogSize: 8, MaxBacklogTimeout: 44 * unit, MetricRegistry: reg})
+					} else if ord == "fifo" {
+						s.lim = limiter.NewFifoBlockingLimiter(gl, 8, 44*unit)
+					} else {
+						s.lim = limiter.NewLifoBlockingLimiter(gl, 8, 44*unit, reg)
+					}
+					cfg := wrapCfg{Kind: "queue", Ctor: "submilli/" + ctor, Limit: 1, QMax: 8, QTimeout: 44, Ordering: ord, Expect: ord, Procs: names}
+					s.extra = func() J {
+						o := J{"busy": busy(), "gauge": int(dl.VerifInFlight()), "q": -1}
+						if v, ok := reg.GaugeByID(core.MetricQueueSize); ok {
+							o["q"] = v
+						}
+						return o
+					}
+					w.write(J{"ev": "Reset", "trace": kk, "cfg": cfg, "obs": s.observe()})
+					i := 0
+					do := func(st schedStep) {
+						if err := s.apply(st); err != nil {
+							return
+						}
+						i++
+						w.write(J{"ev": "Step", "trace": kk, "i": i, "step": st, "evs": s.events(), "obs": s.observe()})
+					}
+					do(schedStep{A: "start", P: "h", Call: "acquire"})
+					do(schedStep{A: "start", P: "w1", Call: "acquire"}) // time-out at 44
+					do(schedStep{A: "tick", N: 10})
+					do(schedStep{A: "start", P: "w2", Call: "acquire"}) // time-out at 54
+					do(schedStep{A: "tick", N: 10})
+					do(schedStep{A: "start", P: "w3", Call: "acquire"}) // time-out at 64
+					do(schedStep{A: "tick", N: releaseAt - 20})
+					do(schedStep{A: "start", P: "h", Call: "release", Outcome: "success"})
+					do(schedStep{A: "tick", N: 30})
+					for _, n := range names {
+						if s.procs[n].state == "granted" {
+							do(schedStep{A: "start", P: n, Call: "release", Outcome: "success"})
+						}
+					}
+					do(schedStep{A: "tick", N: 60})
+					w.write(J{"ev": "End", "trace": kk, "i": i + 1, "obs": s.observe()})
+					s.cleanup()
+				})
+			}
+		}
+	}
+}
+
 // TestWrapperRandom runs seeded free-running scenarios (no gates: every step runs until the whole
 // bubble is quiescent) against every way of constructing a blocking wrapper - configuration,
 // defaults, deprecated constructors, pools - and records them for the contract WrapperTrace:
